@@ -166,7 +166,11 @@ def gen_module(rng):
             src += [rng.choice(['\x0c', '# page\x0cbreak', '# sep \u2028 inside a comment', 'SEP%d = "a\x1cb\x85c"' % j, '\x0c# after a form feed', '# vt \x0b tab'])]
         expectations.append((('K%d.' % j if in_class else '') + 'f%d' % j, fail, stm, style))
     src.insert(0, 'def deco(f):\n    return f\n')
-    return '\n'.join(src) + '\n', expectations
+    text = '\n'.join(src) + '\n'
+    if rng.random() < 0.12:
+        # the whole module indented with TAB characters, docstrings included (one per level)
+        text = '\n'.join('\t' * ((len(l) - len(l.lstrip(' '))) // 4) + ' ' * ((len(l) - len(l.lstrip(' '))) % 4) + l.lstrip(' ') for l in text.split('\n'))
+    return text, expectations
 
 
 def marker_of(text):
